@@ -45,6 +45,12 @@ struct Plan {
     s2n_stream_window: u64,
     s2n_max_streams: u64,
     s2n_max_mtu: u16,
+    /// length of the connection ids the independent implementation uses (RFC 9000: 0..=20; 0 is not used here)
+    quiche_cid_len: usize,
+    /// the max_udp_payload_size transport parameter the independent implementation advertises (>= 1200)
+    quiche_recv_udp_payload: usize,
+    /// it issues a spare connection id (NEW_CONNECTION_ID) after the handshake
+    quiche_issue_cid: bool,
 }
 
 fn plan(seed: u64, k: usize) -> Plan {
@@ -66,6 +72,9 @@ fn plan(seed: u64, k: usize) -> Plan {
         s2n_stream_window: [1_000u64, 20_000, 1_000_000][rng.random_range(0..3)],
         s2n_max_streams: [1u64, 3, 100][rng.random_range(0..3)],
         s2n_max_mtu: [1228u16, 1350, 1500][rng.random_range(0..3)],
+        quiche_cid_len: [8usize, 16, 20, 20, 4][rng.random_range(0..5)],
+        quiche_recv_udp_payload: [1200usize, 1200, 1350, 65527][rng.random_range(0..4)],
+        quiche_issue_cid: rng.random_bool(0.6),
     }
 }
 
@@ -122,7 +131,8 @@ fn quiche_config(p: &Plan, server: bool, dir: &str) -> quiche::Config {
         c.load_priv_key_from_pem_file(&kf).unwrap();
     }
     c.set_max_idle_timeout(20_000);
-    c.set_max_recv_udp_payload_size(65527);
+    c.set_max_recv_udp_payload_size(p.quiche_recv_udp_payload);
+    c.set_active_connection_id_limit(4);
     c.set_max_send_udp_payload_size(p.quiche_udp_payload);
     c.set_initial_max_data(p.quiche_max_data);
     c.set_initial_max_stream_data_bidi_local(p.quiche_max_stream_data);
@@ -140,8 +150,9 @@ fn quiche_run(p: &Plan, server: bool, socket: UdpSocket, peer: Option<SocketAddr
     let local = socket.local_addr().unwrap();
     let mut buf = vec![0u8; 65536];
     let mut out = vec![0u8; 1500];
-    let scid_bytes: [u8; 16] = std::array::from_fn(|i| (i as u8) ^ (p.seed as u8) ^ if server { 0x80 } else { 0 });
-    let scid = quiche::ConnectionId::from_ref(&scid_bytes);
+    let scid_bytes: [u8; 20] = std::array::from_fn(|i| (i as u8) ^ (p.seed as u8) ^ if server { 0x80 } else { 0 });
+    let scid = quiche::ConnectionId::from_ref(&scid_bytes[..p.quiche_cid_len]);
+    let mut spare_issued = false;
     let (mut conn, mut peer) = if server {
         // wait for the first datagram
         socket.set_read_timeout(Some(Duration::from_millis(50))).unwrap();
@@ -186,6 +197,13 @@ fn quiche_run(p: &Plan, server: bool, socket: UdpSocket, peer: Option<SocketAddr
             Err(_) => conn.on_timeout(),
         }
         let _ = peer;
+        if conn.is_established() && p.quiche_issue_cid && !spare_issued && conn.scids_left() > 0 {
+            // a spare connection id of the same length, issued with NEW_CONNECTION_ID
+            spare_issued = true;
+            let spare: [u8; 20] = std::array::from_fn(|i| (i as u8).wrapping_mul(3) ^ 0x5c ^ (p.seed as u8) ^ if server { 0x80 } else { 0 });
+            let r = conn.new_scid(&quiche::ConnectionId::from_ref(&spare[..p.quiche_cid_len]), 0x1234_5678_9abc_def0_u128 ^ p.seed as u128, false);
+            emit(json!({"ev": "quiche_new_scid", "side": me, "len": p.quiche_cid_len, "ok": r.is_ok()}));
+        }
         if conn.is_established() && !established {
             established = true;
             emit(json!({"ev": "hs", "side": me, "ok": true}));
